@@ -275,7 +275,7 @@ for t, T, n, uw in TYPES[:2]:
                      tier="quick" if quick else "thorough", funcs=["%s::poly%s" % (T, d)], space_bits=n * (deg + 2),
                      bound="every x and every coefficient array; result == the documented multi-stage construction written with the crate's public *, quire += and to_posit"))
 for d in range(7, 19):
-    reg("C18", H("c18_p8_poly%d_xset" % d, "c18::p8::poly%d_xset" % d, unwind=34, timeout=1800, tier="quick" if d <= 14 else "thorough", funcs=["P8E0::poly%d" % d], space_bits=8 * (d + 1) + 2,
+    reg("C18", H("c18_p8_poly%d_xset" % d, "c18::p8::poly%d_xset" % d, unwind=34, timeout=1800, tier="quick", funcs=["P8E0::poly%d" % d], space_bits=8 * (d + 1) + 2,
                  bound="every coefficient array, x in {1, 2, -1.5, 0.75}; result == the documented multi-stage construction"))
 reg("C18",
     H("c18_p32_poly1_staging", "c18::p32::poly1_staging", unwind=66, timeout=3600, mem_gb=12, tier="thorough", funcs=["P32E2::poly1"], space_bits=96, bound="every x and coefficient pair"),
